@@ -1,14 +1,29 @@
 package main
 
 import (
+	"bufio"
+	"context"
+	"encoding/json"
+	"fmt"
+	"net"
+	"reflect"
+	"time"
+
 	"mosn.io/api"
+	"mosn.io/mosn/pkg/network"
+	"mosn.io/mosn/pkg/protocol"
 	"mosn.io/mosn/pkg/protocol/xprotocol"
 	"mosn.io/mosn/pkg/protocol/xprotocol/bolt"
 	"mosn.io/mosn/pkg/protocol/xprotocol/boltv2"
 	"mosn.io/mosn/pkg/protocol/xprotocol/dubbo"
 	"mosn.io/mosn/pkg/protocol/xprotocol/tars"
+	"mosn.io/mosn/pkg/stream"
 	xstream "mosn.io/mosn/pkg/stream/xprotocol"
+	"mosn.io/mosn/pkg/types"
+	"mosn.io/pkg/buffer"
+	"mosn.io/pkg/variable"
 	"verif/vh"
+	"verif/xc02"
 )
 
 func init() {
@@ -20,4 +35,197 @@ func init() {
 	_ = xprotocol.RegisterXProtocolCodec(&tars.XCodec{})
 }
 
-func runTable(cases string, tr *vh.Trace, rs *vh.Out, shard, shards int) {}
+type top struct {
+	Op string `json:"op"`
+	W  int    `json:"w"`
+}
+type tcase struct {
+	Ops []top `json:"ops"`
+}
+
+const (
+	wrapBase = uint64(1)<<32 - 2 // the next ids are 2^32-1, 0, 1, ... for a 32-bit protocol
+	specMod  = 65536             // the model wraps at 2^16 (TLC integers)
+)
+
+type delivery struct {
+	W   int    `json:"w"`
+	Tok string `json:"tok"`
+}
+
+type tableRun struct {
+	delivered []delivery
+	resets    []int
+}
+
+type waiter struct {
+	w      int
+	run    *tableRun
+	gen    int
+	tok    string
+	sender types.StreamSender
+	id     uint64
+}
+
+type recv struct {
+	wt  *waiter
+	tok string
+}
+
+func (r *recv) OnReceive(ctx context.Context, headers types.HeaderMap, data types.IoBuffer, trailers types.HeaderMap) {
+	tok := ""
+	if data != nil {
+		tok = data.String()
+	}
+	if h, ok := headers.Get("token"); ok && h != tok {
+		tok = "header:" + h + "/body:" + tok
+	}
+	r.wt.run.delivered = append(r.wt.run.delivered, delivery{W: r.wt.w, Tok: tok})
+}
+func (r *recv) OnDecodeError(ctx context.Context, err error, headers types.HeaderMap) {}
+
+type lis struct{ wt *waiter }
+
+func (l *lis) OnResetStream(reason types.StreamResetReason) { l.wt.run.resets = append(l.wt.run.resets, l.wt.w) }
+func (l *lis) OnDestroyStream()                             {}
+
+type wireReq struct {
+	id  uint32
+	tok string
+}
+
+func mods(ids []uint64) []int {
+	out := []int{}
+	for _, x := range ids {
+		out = append(out, int(x%specMod))
+	}
+	return out
+}
+
+// runTable replays every history into a fresh real client stream connection (bolt over a loopback pair).
+func runTable(cases string, tr *vh.Trace, rs *vh.Out, shard, shards int) {
+	ln, err := net.Listen("tcp", "127.0.0.1:0")
+	vh.Must(err, "listen")
+	defer ln.Close()
+	wire := make(chan wireReq, 1024)
+	go func() {
+		for {
+			c, err := ln.Accept()
+			if err != nil {
+				return
+			}
+			go func(c net.Conn) {
+				defer c.Close()
+				br := bufio.NewReader(c)
+				for {
+					f, err := xc02.ReadFrame(br)
+					if err != nil {
+						return
+					}
+					if f.Type == 1 && f.Cmd == 1 {
+						wire <- wireReq{id: f.ID, tok: string(f.Content)}
+					}
+				}
+			}(c)
+		}
+	}()
+	raddr, _ := net.ResolveTCPAddr("tcp", ln.Addr().String())
+	idx, n := 0, 0
+	err = vh.ReadCases(cases, func(raw json.RawMessage) error {
+		idx++
+		if (idx-1)%shards != shard {
+			return nil
+		}
+		var c tcase
+		if err := json.Unmarshal(raw, &c); err != nil {
+			return err
+		}
+		n++
+		stop := make(chan struct{})
+		cc := network.NewClientConnection(0, nil, raddr, stop)
+		vh.Must(cc.Connect(), "connect loopback")
+		cctx := variable.NewVariableContext(context.Background())
+		cl := stream.NewStreamClient(cctx, bolt.ProtocolName, cc, nil)
+		if cl == nil {
+			vh.Must(fmt.Errorf("no stream client"), "NewStreamClient")
+		}
+		sc, _ := reflect.ValueOf(cl).Elem().FieldByName("ClientStreamConnection").Interface().(types.ClientStreamConnection)
+		if sc == nil || !xstream.VerifSetClientStreamIDBase(sc, wrapBase) {
+			vh.Must(fmt.Errorf("cannot reach the stream connection"), "accessor")
+		}
+		for len(wire) > 0 {
+			<-wire
+		}
+		run := &tableRun{}
+		tr.Emit(vh.Ev{"ev": "tnew", "proto": "bolt", "name": fmt.Sprintf("t%d.%d", shard, idx), "case": c})
+		ws := map[int]*waiter{}
+		var last uint64
+		take := func() ([]delivery, []int) {
+			d, r := run.delivered, run.resets
+			run.delivered, run.resets = nil, nil
+			if d == nil {
+				d = []delivery{}
+			}
+			if r == nil {
+				r = []int{}
+			}
+			return d, r
+		}
+		respond := func(id uint64, tok string) {
+			f := &xc02.Frame{Type: 0, Cmd: 2, ID: uint32(id), Status: 0, Header: [][2]string{{"token", tok}}, Content: []byte(tok)}
+			cl.OnData(buffer.NewIoBufferBytes(f.Encode()))
+		}
+		for _, o := range c.Ops {
+			switch o.Op {
+			case "new":
+				wt := ws[o.W]
+				if wt == nil {
+					wt = &waiter{w: o.W, run: run}
+					ws[o.W] = wt
+				}
+				wt.gen++
+				wt.tok = fmt.Sprintf("t%d.%d-w%dg%d", shard, idx, o.W, wt.gen)
+				ctx := buffer.NewBufferPoolContext(variable.NewVariableContext(context.Background()))
+				wt.sender = cl.NewStream(ctx, &recv{wt: wt, tok: wt.tok})
+				wt.sender.GetStream().AddEventListener(&lis{wt: wt})
+				wt.id = wt.sender.GetStream().ID()
+				last = wt.id
+				req := bolt.NewRpcRequest(0, protocol.CommonHeader(map[string]string{"service": "c02"}), nil)
+				wt.sender.AppendHeaders(ctx, req.GetHeader(), false)
+				wt.sender.AppendData(ctx, buffer.NewIoBufferString(wt.tok), true)
+				wr := wireReq{id: 0xdeadbeef, tok: "(request not seen on the wire)"}
+				select {
+				case wr = <-wire:
+				case <-time.After(5 * time.Second):
+				}
+				d, r := take()
+				tr.Emit(vh.Ev{"ev": "new", "w": o.W, "id": fmt.Sprint(wt.id), "idm": int(wt.id % specMod), "hi": int(wt.id >> 32),
+					"wire_idm": int(wr.id % specMod), "wire_tok": wr.tok, "tok": wt.tok, "delivered": d, "resets": r,
+					"books": mods(xstream.VerifClientStreamIDs(sc))})
+			case "resp":
+				wt := ws[o.W]
+				respond(wt.id, wt.tok)
+				d, r := take()
+				tr.Emit(vh.Ev{"ev": "resp", "w": o.W, "idm": int(wt.id % specMod), "delivered": d, "resets": r, "books": mods(xstream.VerifClientStreamIDs(sc))})
+			case "ghost":
+				respond(uint64(uint32(last+3)), "ghost")
+				d, r := take()
+				tr.Emit(vh.Ev{"ev": "ghost", "delivered": d, "resets": r, "books": mods(xstream.VerifClientStreamIDs(sc))})
+			case "reset":
+				ws[o.W].sender.GetStream().ResetStream(types.StreamLocalReset)
+				d, r := take()
+				tr.Emit(vh.Ev{"ev": "reset", "w": o.W, "delivered": d, "resets": r, "books": mods(xstream.VerifClientStreamIDs(sc))})
+			case "connreset":
+				cl.OnEvent(api.RemoteClose)
+				d, r := take()
+				tr.Emit(vh.Ev{"ev": "connreset", "delivered": d, "resets": r})
+			}
+		}
+		close(stop)
+		cc.Close(api.NoFlush, api.LocalClose)
+		return nil
+	})
+	vh.Must(err, "cases")
+	rs.Put(map[string]interface{}{"summary": true, "runs": n})
+	fmt.Printf("c02 table runs=%d events=%d\n", n, tr.Len())
+}
